@@ -274,6 +274,9 @@ impl Scenario for C16 {
                 Some(j.next_u64() == c.next_u64())
             });
             st.count("probe:real_clock_new");
+            if let Err(SutFail::Panic(m)) = &r {
+                return sut_panic("JitterRng::new", m);
+            }
             if let Ok(Some(true)) = r {
                 return viol(
                     "C16/clone_returns_original_value",
